@@ -105,6 +105,32 @@ async fn replay(l_units: u64, tick_len: u64, h1: bool, hist: &[Value]) -> Result
                     }
                 }
             }
+            "FailAll" => {
+                // every scripted destination resets: the pipes end on the endpoint's side
+                PEERS_FAIL_NOW.store(true, std::sync::atomic::Ordering::SeqCst);
+                tokio::time::sleep(Duration::from_millis(100)).await;
+                PEERS_FAIL_NOW.store(false, std::sync::atomic::Ordering::SeqCst);
+                // the client must be told: the HTTP/1.1 connection is closed, an HTTP/2 stream is reset / ended
+                for s in streams.drain(..) {
+                    match s {
+                        Stream::H1(mut io) => {
+                            let mut b = [0u8; 16];
+                            match tokio::time::timeout(Duration::from_secs(2), io.read(&mut b)).await {
+                                Ok(Ok(0)) | Ok(Err(_)) => {}
+                                Ok(Ok(n)) => return Err((i, format!("{} unexpected bytes on a tunnel whose destination failed", n))),
+                                Err(_) => return Err((i, "2 s after its destination failed the HTTP/1.1 tunnel's client connection is still open".into())),
+                            }
+                        }
+                        Stream::H2(_send, mut recv) => {
+                            match tokio::time::timeout(Duration::from_secs(2), recv.data()).await {
+                                Ok(None) | Ok(Some(Err(_))) => {}
+                                Ok(Some(Ok(_))) => return Err((i, "unexpected data on a tunnel whose destination failed".into())),
+                                Err(_) => return Err((i, "2 s after its destination failed the HTTP/2 stream is still open".into())),
+                            }
+                        }
+                    }
+                }
+            }
             "Tick" => {
                 // absolute tick schedule: the settling pauses of the operations do not accumulate
                 ticks += 1;
